@@ -109,6 +109,25 @@ CHECKS = {
 
 NOT_YET = {}
 
+EXTRA = {
+ "C01": "transactions BUILT for an input listed twice (same or other feature byte): balanced in every sum, refused only by the no-duplicate-commitment rule; the error each corruption is refused with is a measured class (tx_refusal / block_refusal), so a corruption refused only for a side effect shows.",
+ "C02": "a side fork taller than the best chain but lighter (free difficulty) that creates an output above the head's height and then tries to re-create it.",
+ "C03": "trees that start with 51..56 plain blocks and branch off more than 50 blocks below the tip (free difficulty).",
+ "C05": "cycles of the graph with the nonce range doubled that use a nonce beyond the edge range (found by the solver; must be refused for the range alone).",
+ "C06": "a valid block's header over another valid block's body (same hash) followed by the genuine block.",
+ "C07": "rewinds (PMMR::rewind histories and rewindable prefix views) to any position between the last kept leaf and the boundary.",
+ "C08": "variable-size elements also on a prunable backend and in two encodings (one length byte; the u64 length prefix of Writer::write_bytes read back with read_bytes_len_prefix).",
+ "C11": "the exclusion-by-construction for the two open over-allocation findings ends at the 10.8 MB the header rule accepts for the largest message type: longer announcements are generated and must be refused before anything is allocated.",
+ "C12": "kernels paying 2^39, 2^39-1 or 2^40-1 so that the fees of a multiset exceed one 40-bit fee field; kernels of different variants sharing an excess.",
+ "C13": "height locks 2 blocks, 2^32, 2^63-1, 2^63 ahead and at u64::MAX; NRD relative heights of a day and a week; one NRD excess 4-5 times at the closest legal spacing followed by a fork that repeats it.",
+ "C14": "submissions with three height-locked kernels one of which lies beyond the next block.",
+ "C15": "every second forged sibling arrives after the honest block (a fork block that does not become the head).",
+ "C16": "base chains steered to exactly 1024 outputs at an archive height (a whole number of bitmap chunks) and base chains whose first 1024 outputs are all spent (an all-zero chunk below set bits).",
+ "C18": "three quarters of the concurrent plans close and reopen the store in the middle of the warm-up, after two enlargements of the map.",
+ "C19": "unknown-type frames of any length up to their limit (8 KiB +-1, 16 KiB, limit-1, limit); header lists of 511 and 512 items.",
+ "C20": "seeds of 1..200 bytes, the other seed one bit apart anywhere or one byte longer / shorter.",
+}
+
 def main():
     props = [json.loads(l) for l in open(os.path.join(ROOT, "properties.jsonl"))]
     ids = [p["id"] for p in props]
@@ -120,6 +139,8 @@ def main():
     for i in ids:
         if i not in CHECKS: continue
         eng, level, tech, text, note, ref = CHECKS[i]
+        if i in EXTRA:
+            text = text + " Also generated (rounds 7 and 8 of the seeded changes): " + EXTRA[i]
         checks.append({
             "property_id": i,
             "quick_cmd": f"./check {i} quick",
